@@ -480,3 +480,139 @@ Proof.
   - intros Hin. destruct (put_current_accepts root p s Hon) as [H|H]; [exact H|].
     rewrite (put_rejected_outside root p s Hon H) in Hin. discriminate.
 Qed.
+
+(** * reference kinds and the read-side dispatcher *)
+
+(** two consecutive '/' somewhere in a string ([prev] = the previous character was '/') *)
+Fixpoint ds (prev : bool) (s : str) : bool :=
+  match s with
+  | [] => false
+  | a :: r => (prev && (a =? sl)) || ds (a =? sl) r
+  end.
+Definition dslash (s : str) : bool := ds false s.
+
+Lemma ds_mid : forall l1 prev l2, ds prev (l1 ++ sl :: sl :: l2) = true.
+Proof.
+  induction l1 as [|a l1 IH]; intros prev l2; cbn [app ds].
+  - rewrite !N.eqb_refl. cbn [andb]. now rewrite orb_true_r.
+  - rewrite IH. apply orb_true_r.
+Qed.
+
+Lemma is_url_dslash : forall s, is_url s = true -> dslash s = true.
+Proof.
+  intros s H. unfold is_url in H.
+  destruct s as [|c0 [|c1 [|c2 [|c3 [|c4 [|c5 [|c6 [|c7 r]]]]]]]]; try discriminate.
+  apply andb_prop in H. destruct H as [_ H]. apply orb_prop in H. destruct H as [H|H].
+  - apply andb_prop in H. destruct H as [H H7]. apply andb_prop in H. destruct H as [_ H6].
+    apply N.eqb_eq in H6, H7. subst c6 c7. exact (ds_mid [c0; c1; c2; c3; c4; c5] false r).
+  - apply andb_prop in H. destruct H as [H H6]. apply andb_prop in H. destruct H as [_ H5].
+    apply N.eqb_eq in H5, H6. subst c5 c6. exact (ds_mid [c0; c1; c2; c3; c4] false (c7 :: r)).
+Qed.
+
+Lemma ds_noslash : forall c prev, noslash c -> ds prev c = false.
+Proof.
+  induction c as [|a c IH]; intros prev H; [reflexivity|]. inversion H as [|? ? Ha Hc]; subst.
+  cbn [ds]. destruct (N.eqb_spec a sl); [contradiction|]. rewrite andb_false_r. cbn [orb]. now apply IH.
+Qed.
+
+Lemma ds_app_sl : forall a prev x r, noslash a -> (a = [] -> prev = false) -> x <> sl -> ds false (x :: r) = false ->
+  ds prev (a ++ sl :: x :: r) = false.
+Proof.
+  induction a as [|c a IH]; intros prev x r Ha Hp Hx Hb.
+  - rewrite (Hp eq_refl). cbn [app ds] in *. rewrite N.eqb_refl. destruct (N.eqb_spec x sl); [contradiction|].
+    cbn [andb orb] in *. exact Hb.
+  - inversion Ha as [|? ? Hc Ha']; subst. cbn [app ds]. destruct (N.eqb_spec c sl); [contradiction|].
+    rewrite andb_false_r. cbn [orb]. apply IH; auto.
+Qed.
+
+Lemma intercalate_no_dslash : forall cs, Forall good cs -> dslash (intercalate cs) = false.
+Proof.
+  induction cs as [|c cs IH]; intros H; [reflexivity|].
+  inversion H as [|? ? Hc Hcs]; subst. destruct cs as [|c2 r].
+  - cbn [intercalate]. apply ds_noslash. now destruct Hc.
+  - change (intercalate (c :: c2 :: r)) with (c ++ sl :: intercalate (c2 :: r)).
+    destruct (render_rel_shape (c2 :: r) Hcs) as (x & r0 & Ex & Hx). unfold render_rel in Ex.
+    specialize (IH Hcs). rewrite Ex in *. unfold dslash in *.
+    apply ds_app_sl; [now destruct Hc|reflexivity|exact Hx|exact IH].
+Qed.
+
+(** what the repaired check stores for a file reference: real elements only *)
+Lemma put_false_shape : forall root p s, put false root p = Some s ->
+  exists t', s = render_rel t' /\ Forall good t'.
+Proof.
+  intros root p s H. unfold put in H.
+  destruct (has_prefix p root); [|discriminate].
+  destruct (rel (clean root) (clean p)) as [cs|] eqn:Er; [|discriminate].
+  cbn [negb andb] in H. destruct (starts_dotdot cs) eqn:Es; [discriminate|]. injection H as <-.
+  unfold rel in Er. cbn [clean cp_rooted cp_comps] in Er.
+  assert (HgB : Forall good (clean_comps (rooted root) (comps root))) by (apply clean_comps_Forall, comps_good).
+  assert (HgT : Forall good (clean_comps (rooted p) (comps p))) by (apply clean_comps_Forall, comps_good).
+  remember (clean_comps (rooted root) (comps root)) as B eqn:HB.
+  remember (clean_comps (rooted p) (comps p)) as T eqn:HT.
+  destruct (Bool.eqb (rooted root) (rooted p)); [|discriminate]. cbn [negb] in Er.
+  destruct (negb (rooted p) && is_nil T && negb (is_nil B)) eqn:Ec.
+  - exfalso. destruct B as [|x B']; [apply andb_prop in Ec; destruct Ec as [_ Ec]; discriminate|].
+    cbn [strip_common] in Er.
+    assert (Hk : str_eqb x s_dot = false) by (inversion HgB as [|? ? [_ Hk] _]; now apply keep_not_dot).
+    rewrite Hk in Er. destruct (starts_dotdot (x :: B')); [discriminate|]. injection Er as <-.
+    cbn [map app starts_dotdot] in Es. discriminate.
+  - destruct (strip_common B T) as [b' t'] eqn:Esc.
+    destruct (starts_dotdot b'); [discriminate|]. injection Er as <-.
+    destruct b' as [|x b'']; [|cbn [map app starts_dotdot] in Es; discriminate].
+    cbn [map app] in *. exists t'. split; [reflexivity|].
+    destruct (strip_common_spec _ _ _ _ Esc) as (c & _ & ET). rewrite ET in HgT. apply Forall_app in HgT. tauto.
+Qed.
+
+(** a file reference is never stored in a URL-shaped form *)
+Theorem put_not_url : forall root p s, put false root p = Some s -> is_url s = false.
+Proof.
+  intros root p s H. destruct (put_false_shape root p s H) as (t' & -> & Hg).
+  destruct (is_url (render_rel t')) eqn:E; [|reflexivity]. apply is_url_dslash in E.
+  unfold render_rel in E. destruct t' as [|c r]; [discriminate|].
+  now rewrite (intercalate_no_dslash (c :: r) Hg) in E.
+Qed.
+
+(** read-side confinement: for every reference the (repaired) Put accepts, under ANY flags at Put
+    time, and for ANY flags at read time, the local path the dispatcher opens (if any) is inside the root *)
+Theorem read_confined : forall root p af au s,
+  put_ref false af au root p = PStored s ->
+  forall gf gu, match read_disp gf gu root s with
+                | DFile c => inside root c = true
+                | _ => True
+                end.
+Proof.
+  intros root p af au s H gf gu. unfold put_ref in H. unfold read_disp.
+  destruct (is_url p) eqn:Eu.
+  - destruct au; [|discriminate]. injection H as <-. rewrite Eu. now destruct gu.
+  - destruct af; [|discriminate]. destruct (put false root p) as [s'|] eqn:Ep; [|discriminate]. injection H as <-.
+    destruct (is_url s'); [now destruct gu|]. destruct gf; [|exact I]. now apply put_inside in Ep.
+Qed.
+
+Lemma read_confined_b : forall root p af au s,
+  put_ref false af au root p = PStored s -> confined root s = true.
+Proof.
+  intros root p af au s H. unfold confined. cbn [forallb fst snd].
+  pose proof (read_confined root p af au s H) as R.
+  pose proof (R false false) as R1. pose proof (R false true) as R2.
+  pose proof (R true false) as R3. pose proof (R true true) as R4.
+  destruct (read_disp false false root s); destruct (read_disp false true root s);
+    destruct (read_disp true false root s); destruct (read_disp true true root s);
+    try rewrite R1; try rewrite R2; try rewrite R3; try rewrite R4; reflexivity.
+Qed.
+
+(** the dispatcher respects the kind a reference was stored as: a URL reference is never opened as a
+    local file, a file reference is never fetched as a URL, and each reader needs its own flag *)
+Theorem dispatch_kind : forall root p af au s gf gu,
+  put_ref false af au root p = PStored s ->
+  match read_disp gf gu root s with
+  | DFile c => is_url p = false /\ gf = true /\ af = true
+  | DUrl => is_url p = true /\ gu = true /\ au = true /\ s = p
+  | DNotEnabled => if is_url p then gu = false else gf = false
+  end.
+Proof.
+  intros root p af au s gf gu H. unfold put_ref in H. unfold read_disp.
+  destruct (is_url p) eqn:Eu.
+  - destruct au; [|discriminate]. injection H as <-. rewrite Eu. destruct gu; repeat split; reflexivity.
+  - destruct af; [|discriminate]. destruct (put false root p) as [s'|] eqn:Ep; [|discriminate]. injection H as <-.
+    rewrite (put_not_url root p s' Ep). destruct gf; repeat split; reflexivity.
+Qed.
